@@ -418,6 +418,96 @@ RULE_NT = ("non-trivial = a field was returned and judged, some side that matter
            "condition or the grid is annular, the solution is non-zero and the tolerance is not dominated by "
            "round-off; incompatible family: the solver answered with the documented RuntimeError")
 
+# ---------------------------------------------------------------------------------------
+# sub-check: the same boundary-condition *object* is solved with, changed in place and solved
+# with again.  Added after the independently seeded change C18-2 (sparse boundary data
+# cached on the condition object and never invalidated) was missed by single-solve cases.
+# ---------------------------------------------------------------------------------------
+@st.composite
+def reuse_cases(draw):
+    gspec = draw(grids(min_cells=2, max_cells=6, max_total=64, len_lo=0.5, len_hi=8.0, offset_mag=5.0,
+                       allow_periodic=True))
+    sides = []
+    for a, per in enumerate(gspec["periodic"]):
+        if per:
+            sides.append("periodic")
+        else:
+            kinds = ["value", "value", "derivative", "mixed"]
+            sides.append([{"kind": draw(st.sampled_from(kinds)), "x": draw(st.integers(-8, 8)) / 4,
+                           "c": draw(st.integers(-8, 8)) / 4} for _ in range(2)])
+    nonper = [a for a, s_ in enumerate(sides) if s_ != "periodic"]
+    if not nonper:
+        gspec = dict(gspec, periodic=[False] + list(gspec["periodic"][1:]))
+        sides[0] = [{"kind": "value", "x": 1.0, "c": 0.0}, {"kind": "value", "x": -0.5, "c": 0.0}]
+        nonper = [0]
+    # keep the problem regular: one Dirichlet side that is never changed into another kind
+    a0 = nonper[0]
+    sides[a0][1]["kind"] = "value"
+    for a in nonper:
+        for s_ in sides[a]:
+            if s_["kind"] == "mixed":
+                s_["x"] = abs(s_["x"])  # gamma >= 0
+    changes = draw(st.lists(st.tuples(st.sampled_from(nonper), st.booleans(), st.integers(-12, 12).map(lambda k: k / 4),
+                                      st.sampled_from(["value", "const"])), min_size=1, max_size=3))
+    return {"grid": gspec, "sides": sides, "changes": [list(c) for c in changes],
+            "seed": draw(st.integers(0, 2**31))}
+
+
+def check_reuse(case):
+    gspec = case["grid"]
+    grid = build_grid(gspec)
+    names = gb.axis_names(gspec)
+    spec = {}
+    for a, s_ in enumerate(case["sides"]):
+        if s_ == "periodic":
+            spec[names[a]] = "periodic"
+            continue
+        for upper, sd in zip((False, True), s_):
+            key = names[a] + "-+"[upper]
+            if sd["kind"] == "mixed":
+                spec[key] = {"type": "mixed", "value": sd["x"], "const": sd["c"]}
+            else:
+                spec[key] = {sd["kind"]: sd["x"]}
+    bcs = grid.get_boundary_conditions(spec)
+    rhs = pde.ScalarField(grid, rng_array(case["seed"], tuple(gspec["shape"]), "f8", "uniform", 1.0))
+    labels = [f"grid:{gspec['cls']}{len(gspec['shape'])}d"]
+
+    def solve_and_judge(stage):
+        try:
+            u = pde.solve_poisson_equation(rhs.copy(), bcs)
+        except RuntimeError as e:
+            if type(e) is not RuntimeError:
+                raise
+            labels.append(f"{stage}:error")
+            return False
+        lap = u.copy().laplace(bcs).data
+        rough = gf.op_tolerance(gspec, "laplace", u._data_full, rel=1e-11)
+        res = np.abs(lap - rhs.data)
+        tol = 1e-4 + 1e-4 * np.abs(rhs.data) + rough
+        if np.any(~(res <= tol)):
+            i = np.unravel_index(int(np.argmax(res / tol)), res.shape)
+            raise Violation(
+                f"{stage}: field returned by solve_poisson_equation is not a solution for the *current* "
+                f"conditions of the reused BoundariesList: residual {res[i]:.3g} > {tol[i]:.3g} at {tuple(map(int, i))} "
+                f"on {grid_label(gspec)}; bc={bcs!s}", key=f"reuse:{stage.split('#')[0]}:{gspec['cls']}")
+        return True
+
+    ok = solve_and_judge("first-solve")
+    changed = 0
+    for k, (a, upper, val, what) in enumerate(case["changes"]):
+        side = bcs[a].high if upper else bcs[a].low
+        if what == "const" and hasattr(side, "const"):
+            side.const = val
+        else:
+            if type(side).__name__ == "MixedBC":
+                val = abs(val)
+            side.value = val
+        changed += 1
+        ok = solve_and_judge(f"after-change#{k}") and ok
+    labels.append(f"changes:{changed}")
+    return {"nt": ok and changed >= 1, "labels": labels}
+
+
 SUBCHECKS = [
     SubCheck("poisson_residual", strategy=cases, check=check_solver, mode="nojit",
              budget={"quick": 2400, "thorough": 40000}, shards={"quick": 6, "thorough": 16}, rule=RULE_NT),
@@ -426,6 +516,9 @@ SUBCHECKS = [
     SubCheck("incompatible_rejected_or_valid", strategy=lambda: cases(family="incompatible"),
              check=check_solver, mode="nojit",
              budget={"quick": 600, "thorough": 10000}, shards={"quick": 3, "thorough": 8}, rule=RULE_NT),
+    SubCheck("bc_object_reused", strategy=reuse_cases, check=check_reuse, mode="nojit",
+             budget={"quick": 400, "thorough": 8000}, shards={"quick": 2, "thorough": 6},
+             rule="non-trivial = all solves returned a field and >= 1 in-place change of a condition"),
     SubCheck("poisson_residual_jit", strategy=lambda: cases(max_cells=6, max_total=150, jit=True),
              check=check_solver, mode="jit",
              budget={"quick": 90, "thorough": 1500}, shards={"quick": 3, "thorough": 12},
